@@ -49,6 +49,9 @@ func VerifHarness_C01() {
 	gm := graceMenus[verifChoice("grace", len(graceMenus))]
 	o.SoftDeleteGracePeriod, o.HardDeleteGracePeriod = gm.soft, gm.hard
 	o.MinNodes, o.MaxNodes = 0, 10
+	if verifShape(5) == 2 {
+		o.MaxNodes = N // a node registering after the earlier scan puts the group over its maximum
+	}
 	g := w.addGroup(o, 0, 10, 0)
 	classes := c01Classes[menu]
 	prior := verifShape(5) >= 1
@@ -80,6 +83,7 @@ func VerifHarness_C01() {
 		node   int
 		daemon bool
 		static bool
+		viaAff bool
 	}
 	var pins []podIn
 	for j := 0; j < P; j++ {
@@ -87,11 +91,11 @@ func VerifHarness_C01() {
 		node := verifChoice("p"+js+".node", N+2) - 2
 		kinds := 2
 		if j == 0 {
-			kinds = 3 // the first pod may also be a static pod
+			kinds = 4 // the first pod may also be a static pod, or select the group through node affinity
 		}
-		kind := verifChoice("p"+js+".daemon", kinds) // 0 ordinary, 1 daemonset-owned, 2 static pod selecting the group
+		kind := verifChoice("p"+js+".daemon", kinds) // 0 ordinary, 1 daemonset-owned, 2 static pod selecting the group, 3 selected by a two-expression affinity term
 		daemon := kind == 1
-		pins = append(pins, podIn{node, daemon, kind == 2})
+		pins = append(pins, podIn{node, daemon, kind == 2, kind == 3})
 		var cpu int64
 		switch band {
 		case 0:
@@ -107,7 +111,9 @@ func VerifHarness_C01() {
 			// in the earlier scan every pod sat on the first node
 			w.addPod(g, 0, false, cpu, 1<<20, false)
 		} else {
-			w.makeStatic(w.addPod(g, node, daemon, cpu, 1<<20, false), kind == 2)
+			p := w.addPod(g, node, daemon, cpu, 1<<20, false)
+			w.makeStatic(p, kind == 2)
+			w.viaAffinity(p, kind == 3)
 		}
 	}
 	w.build()
@@ -122,9 +128,14 @@ func VerifHarness_C01() {
 			n.obj.Spec.Unschedulable = ins[i].cordoned
 			n.cordoned = ins[i].cordoned
 		}
+		if verifShape(5) == 2 && verifChoice("lateNode", 2) == 1 {
+			w.addNode(g, tcNone, false, 0, 0, 10, true)
+			verifReach("C01.group-over-its-maximum")
+		}
 		for j, p := range w.pods {
 			w.movePod(p, pins[j].node, pins[j].daemon)
 			w.makeStatic(p, pins[j].static)
+			w.viaAffinity(p, pins[j].viaAff)
 		}
 	}
 	cs := verifInt("clock.sec", 0, 3)
